@@ -323,8 +323,13 @@ pub fn fuzz_prop_stage<P: PatProp>(ctx: &RunCtx, o: &mut Outcome, p: Option<&P>,
     match crate::fuzzrun::campaign_env(ctx, "fuzz_prop", Some(name), 16, runs, 96, &seeds) {
         Ok(c) => {
             o.stats.evaluations += c.runs_done;
-            o.extra.insert(format!("fuzz:{}", name), c.evidence);
-            for a in c.artifacts {
+            // memory use is not this property's subject (C06 judges it for compilation): only crash artifacts - the
+            // target panics when its oracle fails - are re-checked; oom / leak reports of the sanitizer runtime are counted
+            let (crashes, other): (Vec<_>, Vec<_>) = c.artifacts.into_iter().partition(|a| a.file_name().and_then(|n| n.to_str()).map_or(false, |n| n.starts_with("crash-")));
+            let mut ev = c.evidence;
+            ev["oom_or_leak_reports_ignored"] = serde_json::json!(other.len());
+            o.extra.insert(format!("fuzz:{}", name), ev);
+            for a in crashes {
                 let data = std::fs::read(&a).unwrap_or_default();
                 let hit = match p {
                     Some(p) => crate::fuzzdec::prop_found(name, &data).map(|found| finish(ctx, p, found)),
